@@ -79,6 +79,27 @@ theorem shaped_bint_key :
     ((splitTop [.int 2] >>= normArgs "Bint").map List.flatten >>= mkKey) := by
   decide
 
+/-- `GetsliceMeta` keys a parametrised getslice op by its index made a tuple, each slice unpacked to
+    `(start, stop, step)` exactly as given — `None` is not `0`, `None` is not `1`. -/
+theorem getslice_source_form_modelled :
+    FV.Gen.C07.getsliceHashForm =
+      "index = args[0] if args else kwargs['index'] ;; if not isinstance(index, tuple): index = (index,) ;; key = tuple(((x.start, x.stop, x.step) if isinstance(x, slice) else x for x in index)) ;; return key" := by
+  rfl
+
+/-- `x[::-1]` and `x[0::-1]`, `x[:3]` and `x[0:3]` and `x[0:3:1]` have different keys; `x[2]` and
+    `x[(2,)]`, `x[:3]` and `x[:3:None]` have the same. -/
+theorem getslice_key_as_given :
+    let k := fun (a : List ArgTok) =>
+      ((splitTop a >>= normArgs "GetsliceMeta").map List.flatten >>= mkKey)
+    k [.sl, .lp, .none, .none, .int (-1), .rp] ≠ k [.sl, .lp, .int 0, .none, .int (-1), .rp] ∧
+    k [.sl, .lp, .none, .int 3, .none, .rp] ≠ k [.sl, .lp, .int 0, .int 3, .none, .rp] ∧
+    k [.sl, .lp, .int 0, .int 3, .none, .rp] ≠ k [.sl, .lp, .int 0, .int 3, .int 1, .rp] ∧
+    k [.int 2] = k [.lp, .int 2, .rp] ∧
+    k [.lp, .ellipsis, .sl, .lp, .int 0, .none, .int (-1), .rp, .rp] ≠
+      k [.lp, .ellipsis, .sl, .lp, .none, .none, .int (-1), .rp, .rp] ∧
+    k [.int 2] ≠ k [.sl, .lp, .int 2, .int 3, .none, .rp] := by
+  decide
+
 /-- Hash-equal is not key-equal: `SumOp(axis=-1)` and `SumOp(axis=-2)` have different keys,
     `SumOp(1)`, `SumOp(1.0)`, `SumOp(True)` have the same. -/
 theorem op_key_eq_not_hash :
@@ -99,6 +120,7 @@ theorem table_metaclasses_modelled :
       (e.name = "funsor.terms.Cat" → e.mcls = "CatMeta") ∧
       (e.name = "funsor.terms.Subs" → e.mcls = "SubsMeta") ∧
       (e.name = "funsor.ops.ReshapeOp" → e.mcls = "ReshapeMeta") ∧
+      (e.name = "funsor.ops.GetsliceOp" → e.mcls = "GetsliceMeta") ∧
       (e.name ∈ ["funsor.ops.SumOp", "funsor.ops.AmaxOp", "funsor.ops.ProdOp", "funsor.ops.ArgmaxOp",
                  "funsor.ops.UnsqueezeOp", "funsor.ops.StackOp", "funsor.ops.GetitemOp"] →
         e.mcls = "OpMeta") ∧
